@@ -1,6 +1,6 @@
 """C08 - parameters round-trip with correct quoting, list arity, caseless names.
 
-E-enum: names in several cases (single and pairs) x every string over a 20-symbol alphabet (incl. NBSP, EM SPACE, U+2028, U+FEFF, a non-BMP character) up to length k x list
+E-enum: names in several cases (single and pairs) x every string over a 22-symbol alphabet (incl. NBSP, EM SPACE, U+2028, U+FEFF, a non-BMP character) up to length k x list
 shapes, on three paths: Parameters alone, inside a content line, on a property of a parsed component.
 Oracle: same upper-cased names, same values in the same order, scalar vs. list arity ([x] == x); emitted names upper
 case and sorted; every value containing , ; : is inside double quotes and a strict RFC 3.1/3.2 splitter (the "other
@@ -17,7 +17,7 @@ from icalendar.parser import Parameters, Contentline
 from icalendar.cal import Event, Calendar, Todo
 from icalendar.prop import vText
 
-SIGMA = (",", ";", ":", "=", "'", "^", " ", "\\", "%", "2", "C", "a", "é", "n", "’", "\u00a0", "\u2003", "\u2028", "\ufeff", "\U0001F600")
+SIGMA = (",", ";", ":", "=", "'", "^", " ", "\\", "%", "2", "C", "a", "é", "n", "’", "\u00a0", "\u2003", "\u2028", "\ufeff", "\U0001F600", "c", "5")
 NAMES = ("X-P", "x-p", "Cn", "ALTREP", "a.b-1")
 PAIRS = (("X-P", "Cn"), ("ALTREP", "a.b-1"), ("x-p", "ALTREP"), ("Cn", "a.b-1"))
 SHAPES = ("s", "s|b", "b|s", "s|b|s", "s|b|c|s", "|s", "s|")
@@ -171,7 +171,7 @@ replay = run_case
 
 def run(ctx):
     k = 3 if ctx.quick else 4
-    ctx.rule = (f"E-enum: names {NAMES} (each) and pairs {PAIRS} x every string over a 20-symbol alphabet (incl. NBSP, EM SPACE, U+2028, U+FEFF, a non-BMP character) with |s|<={k} "
+    ctx.rule = (f"E-enum: names {NAMES} (each) and pairs {PAIRS} x every string over a 22-symbol alphabet (incl. NBSP, EM SPACE, U+2028, U+FEFF, a non-BMP character) with |s|<={k} "
                 f"x shapes {SHAPES} x paths {PATHS} (component path: VEVENT and, for values starting with 'a', strict "
                 "VTODO). non-trivial = the value needs quoting/escaping attention, is a list, or the map has two names.")
     ctx.bounds = {"alphabet": [repr(c) for c in SIGMA], "k": k, "names": list(NAMES), "shapes": list(SHAPES)}
